@@ -1,5 +1,6 @@
 import SpoxModel.Lemmas.Tensor
 import SpoxModel.Lemmas.Attr
+import SpoxModel.Lemmas.Float
 /-!
 # C10 — constants and attributes are embedded exactly and captured at the call
 
@@ -153,7 +154,7 @@ example : (fromArray true ⟨.str, [1], [], [['ü']]⟩).map (fun t => t.stringD
 end examples
 
 /-! ## Part 2 — attribute kinds and validation -/
-open Attr Generated.AttrKinds
+open Attr Generated.AttrKinds FloatBits
 
 /-- The declared `AttributeProto` type of every class is the one ONNX means (generated table). -/
 theorem generated_kinds_exact (c : Cls) : kindOf c = specKind c := by cases c <;> rfl
@@ -256,7 +257,7 @@ theorem validate_spec (q : Bool) (c : Cls) (name : String) (v : PyVal) (hd : inD
     | atom a =>
       cases a <;> simp [construct, validated, scalarProto, rightKind, validateCatchAll, kindOf, FLOAT, INT,
         STRING, TENSOR, TYPE_PROTO, Except.isOk, Except.toBool]
-      case int n f => cases f <;> simp
+      case int n => cases intF32 n <;> simp
       case ndarray a => cases fromArray q a <;> simp
   case int64 =>
     cases v with
@@ -264,7 +265,7 @@ theorem validate_spec (q : Bool) (c : Cls) (name : String) (v : PyVal) (hd : inD
     | atom a =>
       cases a <;> simp [construct, validated, scalarProto, rightKind, validateCatchAll, kindOf, FLOAT, INT,
         STRING, TENSOR, TYPE_PROTO, Except.isOk, Except.toBool]
-      case int n f => cases inInt64 n <;> simp
+      case int n => cases inInt64 n <;> simp
       case ndarray a => cases fromArray q a <;> simp
   case string =>
     cases v with
@@ -272,7 +273,7 @@ theorem validate_spec (q : Bool) (c : Cls) (name : String) (v : PyVal) (hd : inD
     | atom a =>
       cases a <;> simp [construct, validated, scalarProto, rightKind, validateCatchAll, kindOf, FLOAT, INT,
         STRING, TENSOR, TYPE_PROTO, Except.isOk, Except.toBool]
-      case int n f => cases inInt64 n <;> simp
+      case int n => cases inInt64 n <;> simp
       case ndarray a => cases fromArray q a <;> simp
   case type_ =>
     cases v with
@@ -280,7 +281,7 @@ theorem validate_spec (q : Bool) (c : Cls) (name : String) (v : PyVal) (hd : inD
     | atom a =>
       cases a <;> simp [construct, validated, scalarProto, rightKind, validateCatchAll, kindOf, FLOAT, INT,
         STRING, TENSOR, TYPE_PROTO, Except.isOk, Except.toBool]
-      case int n f => cases inInt64 n <;> simp
+      case int n => cases inInt64 n <;> simp
       case ndarray a => cases fromArray q a <;> simp
   case tensor =>
     cases v with
@@ -365,9 +366,9 @@ theorem wrong_kind_typeerror (q : Bool) (c : Cls) (name : String) (v : PyVal)
       exact hv _ _ hs
 
 /-- Exact values: what each accepted value puts into the `AttributeProto`. -/
-theorem attr_int_exact (q : Bool) (name : String) (n : Int) (f : Option Nat) (sv : PyVal) (p : AProto)
-    (h : construct q .int64 name (.atom (.int n f)) = .ok (sv, p)) :
-    p.i = n ∧ sv = .atom (.int n f) := by
+theorem attr_int_exact (q : Bool) (name : String) (n : Int) (sv : PyVal) (p : AProto)
+    (h : construct q .int64 name (.atom (.int n)) = .ok (sv, p)) :
+    p.i = n ∧ sv = .atom (.int n) := by
   simp only [construct, scalarProto, validated] at h
   split at h
   · simp at h
@@ -378,6 +379,77 @@ theorem attr_int_exact (q : Bool) (name : String) (n : Int) (f : Option Nat) (sv
       · simp at h
       · simp only [Except.ok.injEq, Prod.mk.injEq] at h; obtain ⟨rfl, rfl⟩ := h; exact ⟨rfl, rfl⟩
     · simp at hp'
+
+
+/-! ### The float32 attribute path: the value is rounded once, to nearest, ties to even -/
+
+/-- **A float attribute holds `(float)value`.** `r32` is built on `rne` (see `r32_finite`), for which
+    `rne_nearest` (no representable neighbour is closer) and `rne_tie_even` are proved over all naturals. -/
+theorem attr_float_exact (q : Bool) (name : String) (b : Nat) (sv : PyVal) (p : AProto)
+    (h : construct q .float32 name (.atom (.float b)) = .ok (sv, p)) :
+    p.f = r32 b ∧ p.type = FLOAT ∧ p.name = name := by
+  simp only [construct, scalarProto, validated] at h
+  split at h
+  · simp at h
+  · simp only [Except.ok.injEq, Prod.mk.injEq] at h
+    obtain ⟨_, rfl⟩ := h
+    exact ⟨rfl, rfl, rfl⟩
+
+/-- A Python int given to a float attribute goes through `float(n)` (correctly rounded) and then `r32`. -/
+theorem attr_float_of_int_exact (q : Bool) (name : String) (n : Int) (sv : PyVal) (p : AProto)
+    (h : construct q .float32 name (.atom (.int n)) = .ok (sv, p)) :
+    ∃ d, i2d n = some d ∧ p.f = r32 d := by
+  simp only [construct, validated, intF32] at h
+  cases hd : i2d n with
+  | none => simp [hd, validateCatchAll] at h
+  | some d =>
+    simp only [hd, Option.map_some] at h
+    split at h
+    · simp at h
+    · simp only [Except.ok.injEq, Prod.mk.injEq] at h
+      obtain ⟨_, rfl⟩ := h
+      exact ⟨d, rfl, rfl⟩
+
+/-- What `r32` does to a finite double with sign `s`, biased exponent `e`, fraction `m`: in the normal
+    range of binary32 the 53-bit significand `2^52 + m` is rounded (`rne`) to 24 bits — a carry moves
+    into the exponent by plain addition and everything from 2^128 on becomes infinity; below 2^-126 the
+    value is rounded to a multiple of 2^-149 (gradual underflow). -/
+theorem r32_finite (b : Nat) (he : b / 2 ^ 52 % 2048 ≠ 2047) :
+    r32 b = (b / 2 ^ 63 % 2) * 2 ^ 31 +
+      (if 897 ≤ b / 2 ^ 52 % 2048 then
+         min ((b / 2 ^ 52 % 2048 - 897) * 2 ^ 23 + rne (2 ^ 52 + b % 2 ^ 52) 29) f32Inf
+       else
+         rne (if b / 2 ^ 52 % 2048 = 0 then b % 2 ^ 52 else 2 ^ 52 + b % 2 ^ 52)
+             (if b / 2 ^ 52 % 2048 = 0 then 925 else 926 - b / 2 ^ 52 % 2048)) := by
+  unfold r32
+  simp only [he, if_false]
+  split <;> rfl
+
+/-- The rounding primitive is *nearest* and *ties-to-even* (re-exported from `Lemmas/Float.lean`). -/
+theorem float_rounding_nearest (M k z : Nat) :
+    absDiff M (rne M k * 2 ^ k) ≤ absDiff M (z * 2 ^ k) := rne_nearest M k z
+theorem float_rounding_ties_even (M k : Nat) (h : 2 * (M % 2 ^ k) = 2 ^ k) : rne M k % 2 = 0 :=
+  rne_tie_even M k h
+
+section float_examples
+-- 0.1 → 0x3dcccccd;  2^24+1 is half way: goes to the even 2^24;  2^24+3 goes up to 2^24+4
+example : r32 0x3FB999999999999A = 0x3DCCCCCD := by decide
+example : r32 0x4170000010000000 = 0x4B800000 := by decide
+example : r32 0x4170000030000000 = 0x4B800002 := by decide
+-- 1e40 overflows to +inf, the largest double that still rounds to FLT_MAX does not
+example : r32 0x483D6329F1C35CA5 = 0x7F800000 := by decide
+example : r32 0x47EFFFFFEFFFFFFF = 0x7F7FFFFF := by decide
+example : r32 0x47EFFFFFF0000000 = 0x7F800000 := by decide
+-- 2^-150 is half way between 0 and the smallest subnormal: even (0) wins; the next double goes up
+example : r32 0x3690000000000000 = 0 := by decide
+example : r32 0x3690000000000001 = 1 := by decide
+-- −0.0, a NaN with payload (quietened, top payload bits kept), Python int 2^53+1 → float → float32
+example : r32 0x8000000000000000 = 0x80000000 := by decide +kernel
+example : r32 0x7FF4000012345678 = 0x7FE00000 := by decide
+example : (i2d (2 ^ 53 + 1)).map r32 = some 0x5A000000 := by decide +kernel
+set_option exponentiation.threshold 2000 in
+example : i2d (2 ^ 1024) = none := by decide +kernel
+end float_examples
 
 /-- A list attribute keeps its items *in order*, all of them, frozen: the stored value is the tuple
     of the items, and the proto holds exactly their conversions. -/
